@@ -65,6 +65,8 @@ def random_source(rnd):
     nd = rnd.randint(0, 3)
     s = {"defaults": rich_defaults(), "dcf": [random_cfg(rnd, 100 * (i + 1), kinds) for i in range(nd)],
          "env": rnd.random() < 0.6, "envc": [], "envv": [], "argv": [], "last": [], "method": "args"}
+    if nd == 3 and s["dcf"][0] and rnd.random() < 0.4:
+        s["dcf"][2] = s["dcf"][0]   # the first file listed again after the second (read twice)
     if s["env"]:
         if rnd.random() < 0.6:
             s["envc"] = random_cfg(rnd, 500, kinds)
